@@ -1132,6 +1132,19 @@ pub enum Op {
     InlineImage { image: Arc<ImageXObject> },
 }
 
+/// the property list of a marked-content operator may be given by its name in the Properties resources
+fn clone_named_properties(properties: &Option<Primitive>, cloner: &mut impl Cloner, old_resources: &Resources, resources: &mut Resources) -> Result<()> {
+    if let Some(Primitive::Name(ref name)) = *properties {
+        let name = Name(name.clone());
+        if !resources.properties.contains_key(&name) {
+            if let Some(dict) = old_resources.properties.get(&name) {
+                resources.properties.insert(name, dict.deep_clone(cloner)?);
+            }
+        }
+    }
+    Ok(())
+}
+
 pub fn deep_clone_op(op: &Op, cloner: &mut impl Cloner, old_resources: &Resources, resources: &mut Resources) -> Result<Op> {
     match *op {
         Op::GraphicsState { ref name } => {
@@ -1143,10 +1156,32 @@ pub fn deep_clone_op(op: &Op, cloner: &mut impl Cloner, old_resources: &Resource
             Ok(Op::GraphicsState { name: name.clone() })
         }
         Op::MarkedContentPoint { ref tag, ref properties } => {
+            clone_named_properties(properties, cloner, old_resources, resources)?;
             Ok(Op::MarkedContentPoint { tag: tag.clone(), properties: properties.deep_clone(cloner)? })
         }
         Op::BeginMarkedContent { ref tag, ref properties } => {
+            clone_named_properties(properties, cloner, old_resources, resources)?;
             Ok(Op::BeginMarkedContent { tag: tag.clone(), properties: properties.deep_clone(cloner)? })
+        }
+        Op::FillColorSpace { ref name } | Op::StrokeColorSpace { ref name } => {
+            if !resources.color_spaces.contains_key(name) {
+                if let Some(cs) = old_resources.color_spaces.get(name) {
+                    resources.color_spaces.insert(name.clone(), cs.deep_clone(cloner)?);
+                }
+            }
+            Ok(op.clone())
+        }
+        Op::FillColor { color: Color::Other(ref args) } | Op::StrokeColor { color: Color::Other(ref args) } => {
+            // the last operand of scn/SCN may name a pattern
+            if let Some(Primitive::Name(ref name)) = args.last() {
+                let name = Name(name.clone());
+                if !resources.pattern.contains_key(&name) {
+                    if let Some(pattern) = old_resources.pattern.get(&name) {
+                        resources.pattern.insert(name, pattern.deep_clone(cloner)?);
+                    }
+                }
+            }
+            Ok(op.clone())
         }
         Op::TextFont { ref name, size } => {
             if !resources.fonts.contains_key(name) {
